@@ -416,7 +416,7 @@ def normalize_url(
         fragment = safely_quote(fragment)
 
     # Result
-    netloc = unsplit_netloc(user, password, hostname, port)
+    netloc = unsplit_netloc(user, password, hostname or "", port)
     result = SplitResult(scheme, netloc.lower(), path, query, fragment)
 
     if not unsplit:
